@@ -496,6 +496,7 @@ Verdict judge(const Plan &plan, const sim::Shm *shm, const ChildExit &ex, const 
     // compare expected and actual deliveries, in order
     {
         std::map<int, std::map<int, std::string>> tags; // pretty node -> producer -> tag
+        std::set<int> relaxed_nodes;
         size_t n = std::min(model.out.size(), actual.size());
         for (size_t i = 0; i < n && v.ok; i++) {
             const Delivery &x = model.out[i];
@@ -528,7 +529,16 @@ Verdict judge(const Plan &plan, const sim::Shm *shm, const ChildExit &ex, const 
             }
             std::string field;
             std::string got = a.c.formatted ? a.c.fmt : a.c.message;
-            if (x.formatted != a.c.formatted || !match_with_field(x.text, 0, got, 0, &field)) {
+            bool exact = x.formatted == a.c.formatted && match_with_field(x.text, 0, got, 0, &field);
+            if (!exact && x.formatted == a.c.formatted && x.pretty_node >= 0
+                && match_pretty_relaxed(x.text, got, &field)) {
+                // the pretty formatter's layout differs from the reference rendering, the message is intact
+                // and in place: not a violation (no property fixes that layout)
+                v.probes["pretty_layout_differs_from_reference"]++;
+                relaxed_nodes.insert(x.pretty_node); // thread tags cannot be told from an unknown layout: no tag obligations
+                exact = true;
+            }
+            if (!exact) {
                 fail(v, "wrong-text",
                      "sink " + std::to_string(x.sink) + " message " + std::to_string(x.cid >> 16) + "."
                              + std::to_string(x.cid & 0xffff) + ": expected '" + clip(x.text) + "' got '" + clip(got)
@@ -544,7 +554,7 @@ Verdict judge(const Plan &plan, const sim::Shm *shm, const ChildExit &ex, const 
             }
             // (messages logged by a logger thread - producer 62 - come from a different thread in every
             // move/reset cycle; Qt's own messages have no producer: no tag obligations for either)
-            if (x.pretty_node >= 0 && (x.cid >> 16) != kNestedProducer && x.cid >= 0) {
+            if (x.pretty_node >= 0 && (x.cid >> 16) != kNestedProducer && x.cid >= 0 && !relaxed_nodes.count(x.pretty_node)) {
                 std::string tag = (field.empty() || field[0] == ' ') ? "0" : field;
                 auto &m = tags[x.pretty_node];
                 int prod = x.cid >> 16;
@@ -573,6 +583,7 @@ Verdict judge(const Plan &plan, const sim::Shm *shm, const ChildExit &ex, const 
         }
         // thread tags must differ between producers that were alive at the same time
         for (auto &pn : tags)
+            if (!relaxed_nodes.count(pn.first))
             for (auto a = pn.second.begin(); a != pn.second.end(); ++a)
                 for (auto b = std::next(a); b != pn.second.end(); ++b) {
                     auto la = life[a->first], lb = life[b->first];
